@@ -144,6 +144,34 @@ static void string_case(long hist, int type, int is_signed)
 	jwt_checker_free(c);
 }
 
+/* length relations: expected and actual share a prefix and differ in length by d, for the d an implementation that folds, truncates or
+ * narrows a length would confuse with 0 (multiples of 256 and 65536) and their neighbours */
+static void length_case(long hist, int type, int is_signed)
+{
+	static const int D[] = { 1, 2, 127, 128, 255, 256, 257, 511, 512, 513, 768, 1024, 4096, 65535, 65536, 65537, 131072 };
+	static const int BASE[] = { 0, 1, 18, 255, 256, 300 };
+	jwt_checker_t *c = new_checker(hist, is_signed);
+	const char *name = type == JWT_CLAIM_ISS ? "iss" : type == JWT_CLAIM_SUB ? "sub" : "aud";
+	char *e = malloc(140000), *av = malloc(140000), *pl = malloc(140100);
+	for (size_t bi = 0; bi < sizeof(BASE) / sizeof(BASE[0]); bi++)
+		for (size_t di = 0; di < sizeof(D) / sizeof(D[0]); di++)
+			for (int dir = 0; dir < 2; dir++) {
+				/* dir 0: token value = expected + d filler characters; dir 1: expected = token value + d filler characters */
+				size_t lb = (size_t)BASE[bi], ll = lb + (size_t)D[di];
+				char *lng = dir ? e : av, *sht = dir ? av : e;
+				if (D[di] > 4096 && bi % 3 != (size_t)dir) continue;
+				for (size_t i = 0; i < ll; i++) lng[i] = (char)(i < lb ? 'a' + i % 26 : (di & 1) ? 'x' : 'a' + i % 26);
+				lng[ll] = 0;
+				memcpy(sht, lng, lb); sht[lb] = 0;
+				do_set(hist, c, type, e);
+				sprintf(pl, "{\"%s\":\"%s\",\"x\":1}", name, av);
+				do_verify(hist, c, is_signed, 1700000000, pl);
+				if (di == 0) { sprintf(pl, "{\"%s\":\"%s\"}", name, e); do_verify(hist, c, is_signed, 1700000000, pl); }	/* control: equal */
+			}
+	free(e); free(av); free(pl);
+	jwt_checker_free(c);
+}
+
 static void random_payload(pl_t *p, int64_t now, int64_t lw_exp, int64_t lw_nbf)
 {
 	static const char *NM[3] = { "iss", "sub", "aud" };
@@ -231,6 +259,13 @@ int main(int argc, char **argv)
 		if (!vh_mine(&a, hist)) continue;
 		vh_case_begin(hist, "\"kind\":\"strings\",\"type\":%d,\"signed\":%d", T[t], s);
 		string_case(hist, T[t], s);
+	}
+	for (int s = 0; s < 2; s++)
+	for (int t = 0; t < 3; t++, hist++) {
+		static const int T[3] = { JWT_CLAIM_ISS, JWT_CLAIM_SUB, JWT_CLAIM_AUD };
+		if (!vh_mine(&a, hist)) continue;
+		vh_case_begin(hist, "\"kind\":\"lengths\",\"type\":%d,\"signed\":%d", T[t], s);
+		length_case(hist, T[t], s);
 	}
 	for (long i = 0; i < nrandom; i++, hist++) {
 		if (!vh_mine(&a, hist)) continue;
